@@ -5,6 +5,7 @@ Proof part: totality of the evaluator model (guard checker), the depth theorems
 boundary of the guard on the real evaluator and on the model (exact agreement on where OK
 flips to the depth error).  Runtime part (what no model can exhibit): the release CLI, default
 main-thread stack, on the recursion grammar with per-call expression nesting 1..32."""
+import os
 import subprocess
 import sys
 
@@ -64,6 +65,16 @@ def shapes(k):
         ("anon-self-passing", "m = {f: (self, n) => %s}" % nest(k, "self(self, n + 1)"), "m.f(m.f, 0)"),
         ("anon-omega", "w = 0", "(g => %s)(g => %s)" % (nest(k, "g(g)"), nest(k, "g(g)"))),
         ("via-fanout", "f = n => %s" % nest(k, "([n + 1, n + 2] via f)[0]"), "f(0)"),
+        # two recursive calls side by side in one expression: the first depth error must end the evaluation
+        # (an evaluator that goes on to the next argument / element walks an exponential tree)
+        ("args-builtin", "f = n => %s" % nest(k, "max(f(n + 1), f(n + 2))"), "f(0)"),
+        ("args-user", "g = (a, b) => a\nf = n => %s" % nest(k, "g(f(n + 1), f(n + 2))"), "f(0)"),
+        ("list-pair", "f = n => %s" % nest(k, "[f(n + 1), f(n + 2)]"), "f(0)"),
+        ("record-pair", "f = n => %s" % nest(k, "{a: f(n + 1), b: f(n + 2)}"), "f(0)"),
+        ("sum-pair", "f = n => %s" % nest(k, "f(n + 1) + f(n + 2)"), "f(0)"),
+        ("cond-pair", "f = n => %s" % nest(k, "(if f(n + 1) then f(n + 2) else f(n + 3))"), "f(0)"),
+        ("spread-pair", "f = n => %s" % nest(k, "[...f(n + 1), ...f(n + 2)]"), "f(0)"),
+        ("do-pair", "f = n => do {\n  a = f(n + 1)\n  b = f(n + 2)\n  return %s\n}" % nest(k, "a + b"), "f(0)"),
         ("where-fanout", "f = n => %s" % nest(k, "([n + 1, n + 2] where f)"), "f(0)"),
     ]
 
@@ -78,6 +89,71 @@ def run_cli(cli, src, timeout=60):
         return p.returncode, p.stdout, p.stderr
     except subprocess.TimeoutExpired:
         return "timeout", "", ""
+
+
+def repl_session(cli, lines, per_line_timeout=60):
+    """Drive an interactive session of the real binary on a pseudo-terminal (stdin is a terminal, unlike every
+    other run): type the lines, then Ctrl-D.  -> (exit status or 128+signal, everything printed)."""
+    import pty
+    import select
+    import time
+    pid, fd = pty.fork()
+    if pid == 0:
+        os.environ["TERM"] = "dumb"
+        os.execv(cli, [cli])
+    out = bytearray()
+
+    def pump(seconds):
+        end = time.time() + seconds
+        while True:
+            left = end - time.time()
+            if left <= 0:
+                return True
+            r_, _, _ = select.select([fd], [], [], left)
+            if not r_:
+                return True
+            try:
+                chunk = os.read(fd, 65536)
+            except OSError:
+                return False
+            if not chunk:
+                return False
+            out.extend(chunk)
+
+    alive = pump(1.0)
+    for line in lines:
+        if not alive:
+            break
+        os.write(fd, line.encode() + b"\r")
+        quiet_since, size, deadline = time.time(), len(out), time.time() + per_line_timeout
+        while alive and time.time() < deadline:
+            alive = pump(0.3)
+            if len(out) != size:
+                size, quiet_since = len(out), time.time()
+            elif time.time() - quiet_since > 1.0:
+                break
+    if alive:
+        try:
+            os.write(fd, b"\x04")
+        except OSError:
+            pass
+        end = time.time() + 5
+        while pump(0.3) and time.time() < end:
+            pass
+    try:
+        os.kill(pid, 0)
+        _, status = os.waitpid(pid, os.WNOHANG)
+        if _ == 0:
+            os.kill(pid, 9)
+            _, status = os.waitpid(pid, 0)
+    except OSError:
+        _, status = os.waitpid(pid, 0)
+    try:
+        os.close(fd)
+    except OSError:
+        pass
+    code = 128 + os.WTERMSIG(status) if os.WIFSIGNALED(status) else os.WEXITSTATUS(status)
+    return code, out.decode("utf-8", "replace")
 
 
 def main(argv):
@@ -202,6 +278,25 @@ def main(argv):
         res.violation(what, {"kind": "impl-cli", "cli_program": src, "observed_exit": rc, "observed_tail": tailtxt,
                              "expected_exit": 0 if name.startswith("bounded") else 1,
                              "rerun": "./check C18 --replay <this file>"})
+    # ---------------- the interactive session (stdin is a terminal): the same recursion typed into the REPL
+    repl_runs = 0
+    repl_bad = []
+    for k in ([4, 16] if tier == "quick" else [1, 4, 8, 16, 32]):
+        for name, defs, call in shapes(k)[:3]:
+            if "\n" in defs:
+                lines_ = defs.split("\n") + [call]
+            else:
+                lines_ = [defs, call]
+            code, txt = repl_session(cli, lines_ + ["1 + 1"])
+            repl_runs += 1
+            # the session reports the depth error, survives it (answers the next line) and ends normally on Ctrl-D
+            if "maximum call depth" not in txt or code >= 128 or "2" not in txt.split("maximum call depth")[-1]:
+                repl_bad.append((name, k, lines_, code, txt[-400:]))
+    for name, k, lines_, code, tailtxt in repl_bad[:3]:
+        res.violation("an interactive session crashed or misreported a runaway recursion (shape %s, nesting %d): status %s"
+                      % (name, k, code), {"kind": "impl-repl", "typed_lines": lines_, "observed_status": code,
+                                          "observed_tail": tailtxt})
+    res.streams["REPL-recursion"] = {"sessions": repl_runs, "failures": len(repl_bad)}
     res.streams["CLI-recursion"] = {"runs": runs, "nestings": nestings, "shapes": [s[0] for s in shapes(1)],
                                     "outcomes": {str(k): v for k, v in dist.items()}, "failures": len(bad)}
     res.coverage["evaluations"] = len(srcs) + runs
